@@ -543,7 +543,9 @@ class PhaseFieldScn(Scenario):
 
         p = cfg["params"]
         self._mat = Models.Elastic.Isotropic(2, E=p["E"], v=0.3, planeStress=False, thickness=0.7)
-        return Models.PhaseField(self._mat, Models.PhaseField.SplitType.Amor, Models.PhaseField.ReguType.AT2, Gc=p["Gc"], l0=p["l0"])
+        # Bourdin split: the displacement system depends on the damage only (with a strain-sign dependent split the matrix kept after a solve is
+        # the one of the PREVIOUS displacement by design, which a fresh twin given the new displacement cannot reproduce)
+        return Models.PhaseField(self._mat, Models.PhaseField.SplitType.Bourdin, Models.PhaseField.ReguType.AT2, Gc=p["Gc"], l0=p["l0"])
 
     def set_param(self, model, name, value):
         if name == "E":
